@@ -97,7 +97,7 @@ PEERS_TRUSTED = [
 PROPS['C15'] = {
     'level': 'proof',
     # what refreshes a peer and with which timeout; when it is removed
-    'verus': [{'unit': 'peers', 'fns': ['GenericCloud::update_peer_info', 'GenericCloud::housekeep_expiry_block', 'lemma_take_contains', 'canary_.*']}],
+    'verus': [{'unit': 'peers', 'fns': ['GenericCloud::update_peer_info', 'GenericCloud::add_new_peer', 'GenericCloud::housekeep_expiry_block', 'lemma_take_contains', 'canary_.*']}],
     'native_search': {r'peers::GenericCloud.*': NODE_PEERS_DRV, r'kani::timing::housekeep_interval.*': NODE_PEERS_DRV},
     'kani': {
         'files': {'src/cloud.rs': ['kani/timing.rs.in']},
@@ -111,7 +111,7 @@ PROPS['C15'] = {
     },
     'trusted': ['block contracts: only the named statement ranges are under contract; the rest of housekeep / reconnect_to_peers is not'] + PEERS_TRUSTED,
     'not_decided': [
-        'GenericCloud::housekeep beyond the expiry statements and the interval statements (crypto_housekeep, statistics, beacons, port forwarding); add_new_peer setting the first expiry',
+        'GenericCloud::housekeep beyond the expiry statements and the interval statements (crypto_housekeep, statistics, beacons, port forwarding)',
         'mesh-level "no healthy peer is ever timed out" (needs delivery assumptions)',
     ],
 }
@@ -388,12 +388,14 @@ PROPS['C10'] = {
 
 PROPS['C01'] = {
     'level': 'proof',
-    'level_text': 'PARTIAL - three of the four mechanisms of this property, as contracts on the real code (Verus): (1) InitMsg::read_from returns a message only if it carries an Ed25519 signature that is valid, under a key of the trusted list - the one selected by the salted hash in the first 8 bytes - over ALL bytes up to and including the end marker; for every byte sequence and every trusted list, with termination and memory safety. (2) InitState::handle_init, from its first statement up to the decoder call: when the decoder rejects, the error is returned with the handshake object and the buffer geometry unchanged ("without altering a handshake already in progress"). (3) the statements of GenericCloud::handle_net_message that treat a handshake datagram from an address without pending handshake: the responder object is stored only if it accepted that first message; otherwise no pending entry, no peer, nothing sent ("without creating a peer ... without any reply"). Ed25519 and SHA-256 are uninterpreted functions (unforgeability is the cipher assumption). NOT decided: that two nodes become peers EXACTLY when each trusts the other (needs the whole handshake: C05), mechanism (4) (payload of pong/peng must decrypt before success is reported), the stages after the decoder inside handle_init, lingering / pending handshake objects receiving the datagram (PeerCrypto::handle_message is an environment function at node level), key parsing and the trusted-list construction in Crypto::new.',
+    'level_text': 'PARTIAL - three of the four mechanisms of this property, as contracts on the real code (Verus): (1) InitMsg::read_from returns a message only if it carries an Ed25519 signature that is valid, under a key of the trusted list - the one selected by the salted hash in the first 8 bytes - over ALL bytes up to and including the end marker; for every byte sequence and every trusted list, with termination and memory safety. (2) InitState::handle_init, from its first statement up to the decoder call: when the decoder rejects, the error is returned with the handshake object and the buffer geometry unchanged ("without altering a handshake already in progress"). (3) the statements of GenericCloud::handle_net_message that treat a handshake datagram from an address without pending handshake: the responder object is stored only if it accepted that first message; otherwise no pending entry, no peer, nothing sent ("without creating a peer ... without any reply"); and GenericCloud::add_new_peer creates a peer entry only out of the pending handshake object of that address (consumed), never otherwise. Ed25519 and SHA-256 are uninterpreted functions (unforgeability is the cipher assumption). NOT decided: that two nodes become peers EXACTLY when each trusts the other (needs the whole handshake: C05), mechanism (4) (payload of pong/peng must decrypt before success is reported), the stages after the decoder inside handle_init, lingering / pending handshake objects receiving the datagram (PeerCrypto::handle_message is an environment function at node level), key parsing and the trusted-list construction in Crypto::new.',
     'verus': [{'unit': 'codec', 'rlimit': 100, 'fns': ['InitMsg::read_from', 'InitState::handle_init_until_decoded', 'MsgBuffer::.*', 'lemma_cur_adv', 'canary_.*']},
               {'unit': 'cloud', 'fns': ['GenericCloud::responder_block', 'GenericCloud::handle_net_message']},
               # "accepts its payload only from a party that proved possession": before the handshake produced a core, or plain mode was
               # negotiated, no non-handshake datagram is interpreted by the per-peer object (also while the handshake is pending)
-              {'unit': 'buffer', 'fns': ['PeerCrypto::(decrypt_message|handle_message|handle_init_message|get_core|get_init)', 'is_init_message']}],
+              {'unit': 'buffer', 'fns': ['PeerCrypto::(decrypt_message|handle_message|handle_init_message|get_core|get_init)', 'is_init_message']},
+              # a peer entry is created only out of a pending handshake object for that address (GenericCloud::add_new_peer)
+              {'unit': 'peers', 'fns': ['GenericCloud::add_new_peer', 'GenericCloud::update_peer_info', 'canary_.*']}],
     'native_search': {r'codec::(InitMsg|InitState).*': INIT_DRV},
     'trusted': CODEC_TRUSTED + CLOUD_TRUSTED + [
         'ring: Ed25519 verification and SHA-256 as uninterpreted functions ed25519_ok(key, data, signature), key_hash4(key, salt); R5 pinned statements: `signature::UnparsedPublicKey::new(&ED25519, &public_key_data)` + `public_key.verify(signed_data, &signature).is_err()`, `Self::calculate_hash(tk, &public_key_salt) == public_key_hash`',
